@@ -107,6 +107,35 @@ theorem gen_faithful_partial (info : Int → Info) (H first last lastWall : Int)
     · rw [hsb3, k2, heq, ← hgi]
     · rw [hsb4, k3, heq, ← hgi]
 
+/-- End to end for a zone given by its table (UTC clock): when the driver's check `chainOK` accepts the
+    table, the generated component exists and reads as the zone at every instant of the window that
+    does not lie between a transition and its misplaced onset. All hypotheses are statements about
+    the table and the segments the loop produced; none mentions a chain. -/
+theorem gen_faithful_zone (Z : Zone) (hclock : Z.wallIsClock = false) (H first last lastWall : Int)
+    (hs : sortedRows Z.rows = true) (hc : chainOK Z.init Z.rows first last = true) (hH : last + maxStep ≤ H)
+    (segs : List Seg)
+    (hsegs : outer Z.info Z.wall skipSearch H last ((last - first).toNat + 1) first none = some segs)
+    (hnld : ∀ g ∈ segs, ¬ (lastWall ≤ g.wall ∧ g.wall < lastWall + 86400))
+    (hsep : ∀ a ∈ segs, ∀ b ∈ segs, a.start < b.start → onsetOf a < onsetOf b)
+    (t : Int) (h1 : first ≤ t) (h2 : t < last)
+    (hout : ∀ g ∈ segs, (g.start ≤ t → onsetOf g ≤ t) ∧ (onsetOf g ≤ t → g.start ≤ t)) :
+    ∃ gen, fromTzinfo Z H first last lastWall = some gen ∧ Reads gen t (Z.info t) := by
+  obtain ⟨Ts, hTs⟩ := chainOK_sound Z H first last hs hc hH
+  have hwall : Z.wall = fun x => x + (Z.info x).off := by
+    funext x; simp [Zone.wall, hclock]
+  rw [hwall] at hsegs
+  have houter := outer_chain Z.info (fun x => x + (Z.info x).off) H last hH Ts first hTs
+    ((last - first).toNat + 1) none (by omega)
+  rw [houter] at hsegs
+  simp only [Option.some.injEq] at hsegs
+  subst hsegs
+  have hgen : fromInfo Z.info (fun x => x + (Z.info x).off) H first last lastWall =
+      some ((group (segsOf Z.info (fun x => x + (Z.info x).off) last none first Ts)).map (emit lastWall)) := by
+    unfold fromInfo; rw [houter]; rfl
+  refine ⟨_, ?_, gen_faithful_partial Z.info H first last lastWall Ts hTs hH _ hgen hnld hsep t h1 h2 hout⟩
+  unfold fromTzinfo
+  rw [hwall]; exact hgen
+
 /-- On the UTC clock the onset the generated component gives a transition at `g.start` is
     misplaced by `to − from` (D16b): DTSTART is the wall time *after* the change. -/
 theorem onset_is_shifted (info : Int → Info) (last first : Int) (Ts : List Int) :
